@@ -59,7 +59,13 @@ func New() Vigil {
 }
 
 func (v *vigil) BeginVigil() {
+	if verifhook.Enabled {
+		verifhook.Point("vigil.begin.pre", v)
+	}
 	atomic.AddInt64(&v.vigils, 1)
+	if verifhook.Enabled {
+		verifhook.Point("vigil.begin.post", v)
+	}
 }
 
 func (v *vigil) CeaseVigil() {
@@ -68,11 +74,17 @@ func (v *vigil) CeaseVigil() {
 	// Broadcast that follows) can no longer fall between its check and its Wait and get lost.
 	v.mu.Lock()
 	atomic.AddInt64(&v.vigils, -1)
+	if verifhook.Enabled {
+		verifhook.Point("vigil.dec.locked", v, atomic.LoadInt64(&v.vigils))
+	}
 	v.mu.Unlock()
 	if verifhook.Enabled {
 		verifhook.Point("vigil.dec", v)
 	}
 	v.cond.Broadcast()
+	if verifhook.Enabled {
+		verifhook.Point("vigil.bcast.done", v)
+	}
 }
 
 func (v *vigil) HasActiveVigils() bool {
@@ -87,5 +99,8 @@ func (v *vigil) WaitForActiveVigilsClosed() {
 			verifhook.Point("vigil.checked", v)
 		}
 		v.cond.Wait()
+	}
+	if verifhook.Enabled {
+		verifhook.Point("vigil.passed", v)
 	}
 }
